@@ -8,8 +8,12 @@ Specification : specs/Call.tla section 6 (the ideal: Want = what the C caller mu
 Design level  : MC_CallCb — every result type class x {callback, extern "Python"} x body
                 {raises, returns boundary / out-of-range / wrong-type value, returns a short list
                 or dict initializer for a struct result} x error= x onerror
-                {absent, None, value, unconvertible value, raises}: NoEscape, DeliveredOK,
-                WidenOK; four broken variants must be rejected.
+                {absent, None, value, unconvertible value, raises, short list / dict initializer
+                for a struct result}: NoEscape, DeliveredOK, WidenOK; six broken variants must be
+                rejected.  The three callers of the result conversion (error=, the body's value,
+                onerror's value) are distinguished: onerror's value is converted into a buffer
+                that holds the error= bytes, and must still arrive as "named fields set, every
+                other byte zero" (error= values are non-zero in every field, model and replay).
 Binding       : every configuration TLC enumerated is executed on real ffi.callback objects and
                 @ffi.def_extern functions invoked by generated C callers whose argument rows
                 are constants compiled into the C code; the Python functions record what they
@@ -35,7 +39,7 @@ INVARIANT WidenOK
 CHECK_DEADLOCK FALSE
 """
 VARIANTS = (("widen_low_only", "WidenOK"), ("widen_zero", "WidenOK"), ("no_errcopy", "DeliveredOK"),
-            ("escape", "NoEscape"), ("struct_nozero", "DeliveredOK"))
+            ("escape", "NoEscape"), ("struct_nozero", "DeliveredOK"), ("struct_zero_body_only", "DeliveredOK"))
 CLAUSE = {"escape": "a Python exception escaped into the C caller",
           "called": "the Python function was not invoked exactly once",
           "args": "the Python function did not receive exactly the argument values the C caller passed",
@@ -44,7 +48,7 @@ RT_OF = {"p_i32": "p_i32"}
 
 
 def design_level(ctx):
-    with ThreadPoolExecutor(max_workers=6) as ex:
+    with ThreadPoolExecutor(max_workers=7) as ex:
         fm = ex.submit(core.tlc, "MC_CallCb", cfg_text=CFG % "faithful", workers=4, coverage=not ctx.quick, timeout=1200)
         fv = [ex.submit(core.tlc, "MC_CallCb", cfg_text=(CFG % v).replace("MCCfgs", "SmallCfgs"), workers=1, timeout=600,
                         env=R.LIGHT_JVM) for v, _ in VARIANTS]
@@ -244,8 +248,10 @@ def selftest(ctx):
 META = {
     "category": "model_checking",
     "text": "CallCb.tla models the result buffer of a callback invocation exactly as the C code operates on it "
-            "(error bytes prepared at creation, ffi_arg widening, memcpy of the error value, onerror) and TLC checks "
-            "for the full product result type x {callback, extern Python} x body x error= x onerror that it "
+            "(error bytes prepared at creation, ffi_arg widening, memcpy of the error value, onerror, zeroing of a "
+            "struct result before each of the three conversions into it) and TLC checks "
+            "for the full product result type x {callback, extern Python} x body x error= x onerror (both value "
+            "spaces including short list/dict initializers of struct results) that it "
             "delivers what the property demands, that small integers are correctly widened and that no exception "
             "stays pending; every enumerated configuration is then executed on real callbacks invoked by generated "
             "C callers with compiled-in argument rows, and TLC validates every invocation (arguments seen, bytes "
